@@ -58,21 +58,81 @@ CNT_DEF = ("cnt_steps(all_steps_of(scenario), 0) == 0 and forall(lambda n: impli
 contract("abs:Scenario.__iter__", trusted=True, params={"self": "ref:Scenario"}, pos_params=["self"], pure=True,
          result="seq:ref:Step", ensures={"value": "result is all_steps_of(self)"},
          doc="iter(scenario): background steps then own steps (C02 proves all_steps)")
+# ---------------------------------------------------------------------------------------
+# the census of the model tree, for the arbitrary fixed status PROBE, as recursive definitions (measures m):
+#   0: scenarios with status PROBE      1: steps with status PROBE      2: rules with status PROBE
+#   3: scenarios with status failed     4: scenarios with an error-class status
+# leaf(s, m): contribution of one scenario;  sum_leaf(q, n, m): of the first n scenarios of list q;
+# item_m(x, m): of one run item (rule / outline / scenario);  sum_items(q, n, m): of the first n run items of q.
+oracle("seq_n", ["val"], "int")         # length of a model list (steps of a scenario, rows of an outline, run items)
+oracle("leaf", ["val", "int"], "int")
+oracle("sum_leaf", ["val", "int", "int"], "int")
+oracle("item_m", ["val", "int"], "int")
+oracle("sum_items", ["val", "int", "int"], "int")
+MEASURES = (0, 1, 2, 3, 4)
+ERRCLASS = "(Status.error, Status.hook_error, Status.cleanup_error, Status.undefined, Status.pending)"
+
+
+def leaf_def(s):
+    steps = "as_list(all_steps_of(%s), 'ref:Step')" % s
+    return ("leaf(%(s)s, 0) == (1 if child_status(%(s)s) == probe_status() else 0) and "
+            "leaf(%(s)s, 1) == cnt_steps(all_steps_of(%(s)s), seq_n(all_steps_of(%(s)s))) and leaf(%(s)s, 2) == 0 and "
+            "leaf(%(s)s, 3) == (1 if child_status(%(s)s) == Status.failed else 0) and "
+            "leaf(%(s)s, 4) == (1 if child_status(%(s)s) in %(err)s else 0)" % {"s": s, "steps": steps, "err": ERRCLASS})
+
+
+def sum_def(fun, elem, q, qlist):
+    """fun(q, 0, m) == 0 and fun(q, n, m) == fun(q, n-1, m) + elem(q[n-1], m) for every measure m."""
+    parts = []
+    for m in MEASURES:
+        parts.append("%(f)s(%(q)s, 0, %(m)d) == 0 and forall(lambda n: implies(0 < n <= len(%(ql)s), "
+                     "%(f)s(%(q)s, n, %(m)d) == %(f)s(%(q)s, n - 1, %(m)d) + %(e)s(%(ql)s[n - 1], %(m)d)))"
+                     % {"f": fun, "q": q, "ql": qlist, "m": m, "e": elem})
+    return " and ".join(parts)
+
+
+TABLES_TRACK = {
+    0: ("self.scenario_summary", "scenario"), 1: ("self.step_summary", "step"), 2: ("self.rule_summary", "rule")}
+
+
+def census_clauses(total):
+    """table / listing effects in terms of a census expression total(m)."""
+    out = {}
+    for m, (tab, kind) in TABLES_TRACK.items():
+        out["%s-table-grows-by-the-number-of-%ss-with-that-status" % (kind, kind)] = (
+            "dict_value(%s, probe_status().name) == old(dict_value(%s, probe_status().name)) + %s" % (tab, tab, total(m)))
+    out["failing-listing-grows-by-the-number-of-failed-scenarios"] = (
+        "len(self._failed_scenarios) == old(len(self._failed_scenarios)) + %s" % total(3))
+    out["errored-listing-grows-by-the-number-of-error-class-scenarios"] = (
+        "len(self._errored_scenarios) == old(len(self._errored_scenarios)) + %s" % total(4))
+    out["no-rows-added-or-removed"] = (
+        "forall_val(lambda s: has_key(self.step_summary, s) == old(has_key(self.step_summary, s))) and "
+        "forall_val(lambda s: has_key(self.scenario_summary, s) == old(has_key(self.scenario_summary, s))) and "
+        "forall_val(lambda s: has_key(self.rule_summary, s) == old(has_key(self.rule_summary, s)))")
+    return out
+
+
+V1_REQ = {
+    "two-lists": "self._failed_scenarios is not self._errored_scenarios",
+    "tables-are-distinct": "self.scenario_summary is not self.step_summary and self.scenario_summary is not self.rule_summary "
+                           "and self.step_summary is not self.rule_summary and self.feature_summary is not self.rule_summary "
+                           "and self.feature_summary is not self.scenario_summary and self.feature_summary is not self.step_summary",
+}
+V1_MOD = ["list(self._failed_scenarios)", "list(self._errored_scenarios)", "dict(self.scenario_summary)",
+          "dict(self.step_summary)", "dict(self.rule_summary)", "*._cached_status", "*._background_steps",
+          "*._scenarios", "*.index", "*.id", "*.modified"]
+PROBE_IS_STATUS = {"the-probe-is-a-status": "has_kind(probe_status(), 'Status')"}
+
+ALIAS_STEPS = ("all_steps_of(scenario) is not self._failed_scenarios and all_steps_of(scenario) is not self._errored_scenarios")
 contract(RS + "SummaryReporterV1.process_scenario", props=P,
          params={"self": "ref:SummaryReporterV1", "scenario": "ref:Scenario"}, self_classes=["SummaryReporterV1"],
-         requires={
-             "two-lists": "self._failed_scenarios is not self._errored_scenarios",
-             "tables-are-distinct": "self.scenario_summary is not self.step_summary",
-             "scenario-status-has-a-row": "has_key(self.scenario_summary, child_status(scenario).name)",
-             "step-statuses-have-rows": "forall(lambda k: implies(0 <= k < len(%s), has_key(self.step_summary, %s[k].status.name)))"
-                                        % (STEPS_OF, STEPS_OF),
-         },
-         assume={"definition-of-cnt_steps (count of steps with the probe status among the first n)": CNT_DEF,
-                 "the-probe-is-a-status": "has_kind(probe_status(), 'Status')",
-                 "the-scenario's-step-list-is-not-one-of-the-reporter's-listings":
-                 "all_steps_of(scenario) is not self._failed_scenarios and all_steps_of(scenario) is not self._errored_scenarios"},
-         modifies=["list(self._failed_scenarios)", "list(self._errored_scenarios)", "dict(self.scenario_summary)",
-                   "dict(self.step_summary)", "*._cached_status", "*._background_steps"],
+         requires=V1_REQ, lookup_raises=True, allow_raises=["KeyError"],
+         assume=dict(PROBE_IS_STATUS, **{
+             "definition-of-cnt_steps (count of steps with the probe status among the first n)": CNT_DEF,
+             "definition-of-leaf (census contribution of one scenario)": leaf_def("scenario"),
+             "seq_n-is-the-length-of-the-step-list": "seq_n(all_steps_of(scenario)) == len(%s)" % STEPS_OF,
+             "the-scenario's-step-list-is-not-one-of-the-reporter's-listings": ALIAS_STEPS}),
+         modifies=V1_MOD,
          loops=[Loop(invariant={
              "steps-so-far-counted-under-their-status":
                  "dict_value(self.step_summary, probe_status().name) == pre(dict_value(self.step_summary, probe_status().name)) "
@@ -80,18 +140,207 @@ contract(RS + "SummaryReporterV1.process_scenario", props=P,
              "rows-kept": "forall_val(lambda s: has_key(self.step_summary, s) == pre(has_key(self.step_summary, s)))",
              "same-walk": "_seq is all_steps_of(scenario)",
          }, modifies=["dict(self.step_summary)", "*._cached_status"])],
-         ensures={
-             "scenario-counted-once-under-its-status":
+         ensures=dict(census_clauses(lambda m: "leaf(scenario, %d)" % m), **{
+             "scenario-counted-once-under-its-status-and-no-other-row-touched":
                  "forall_val(lambda s: implies(has_key(self.scenario_summary, s), dict_value(self.scenario_summary, s) == "
                  "old(dict_value(self.scenario_summary, s)) + (1 if s == child_status(scenario).name else 0)))",
-             "every-step-counted-once-under-its-status":
-                 "dict_value(self.step_summary, probe_status().name) == old(dict_value(self.step_summary, probe_status().name)) "
-                 "+ cnt_steps(all_steps_of(scenario), len(%s))" % STEPS_OF,
-             "no-rows-added-or-removed":
-                 "forall_val(lambda s: has_key(self.step_summary, s) == old(has_key(self.step_summary, s))) and "
-                 "forall_val(lambda s: has_key(self.scenario_summary, s) == old(has_key(self.scenario_summary, s)))",
+             "listed-scenario-is-this-one":
+                 "implies(child_status(scenario) == Status.failed, self._failed_scenarios[len(self._failed_scenarios) - 1] is scenario) and "
+                 "implies(child_status(scenario) in %s, self._errored_scenarios[len(self._errored_scenarios) - 1] is scenario)" % ERRCLASS,
+         }),
+         doc="a missing row for a status raises KeyError (a visible crash, not a miscount): which statuses can occur per "
+             "kind is C03's roll-up")
+
+
+def census_invariant(total_i):
+    inv = {}
+    for m, (tab, kind) in TABLES_TRACK.items():
+        inv["%s-table-tracks-the-census-so-far" % kind] = (
+            "dict_value(%s, probe_status().name) == pre(dict_value(%s, probe_status().name)) + %s" % (tab, tab, total_i(m)))
+    inv["listings-track-the-census-so-far"] = (
+        "len(self._failed_scenarios) == pre(len(self._failed_scenarios)) + %s and "
+        "len(self._errored_scenarios) == pre(len(self._errored_scenarios)) + %s" % (total_i(3), total_i(4)))
+    inv["rows-kept"] = ("forall_val(lambda s: has_key(self.step_summary, s) == pre(has_key(self.step_summary, s))) and "
+                        "forall_val(lambda s: has_key(self.scenario_summary, s) == pre(has_key(self.scenario_summary, s))) and "
+                        "forall_val(lambda s: has_key(self.rule_summary, s) == pre(has_key(self.rule_summary, s)))")
+    inv["reporter-shape-kept"] = V1_REQ["two-lists"] + " and " + V1_REQ["tables-are-distinct"]
+    return inv
+
+
+ROWS = "as_list(rows_of(scenario_outline), 'ref:Scenario')"
+contract(RS + "SummaryReporterV1.process_scenario_outline", props=P,
+         params={"self": "ref:SummaryReporterV1", "scenario_outline": "ref:ScenarioOutline"},
+         self_classes=["SummaryReporterV1"], requires=V1_REQ, allow_raises=["KeyError"],
+         assume=dict(PROBE_IS_STATUS, **{
+             "definition-of-sum_leaf (census of the first n row scenarios)":
+                 sum_def("sum_leaf", "leaf", "rows_of(scenario_outline)", ROWS),
+             "seq_n-is-the-length-of-the-row-list": "seq_n(rows_of(scenario_outline)) == len(%s)" % ROWS,
+             "the-outline's-row-list-is-not-one-of-the-reporter's-listings":
+                 "rows_of(scenario_outline) is not self._failed_scenarios and rows_of(scenario_outline) is not self._errored_scenarios"}),
+         modifies=V1_MOD,
+         loops=[Loop(invariant=dict(census_invariant(lambda m: "sum_leaf(rows_of(scenario_outline), _i, %d)" % m),
+                                    **{"same-walk": "_seq is rows_of(scenario_outline)"}), modifies=V1_MOD)],
+         ensures=census_clauses(lambda m: "sum_leaf(rows_of(scenario_outline), seq_n(rows_of(scenario_outline)), %d)" % m),
+         doc="every row scenario of the outline is processed exactly once, in order")
+
+# -- run items of a feature / rule ---------------------------------------------------------------------
+M_ = "behave.model:"
+contract(M_ + "ScenarioContainer.__iter__", inline=True)
+ITEMS = "as_list(parent.run_items, 'ref:RunItem')"
+
+
+def item_defs(q, qlist):
+    """item_m for the outlines and plain scenarios among the run items of list q (rules: see process_rule)."""
+    parts = []
+    for m in MEASURES:
+        parts.append(
+            "forall(lambda k: implies(0 <= k < len(%(ql)s), "
+            "implies(typeof_is(%(ql)s[k], 'ScenarioOutline'), item_m(%(ql)s[k], %(m)d) == "
+            "sum_leaf(rows_of(as_ref(%(ql)s[k], 'ScenarioOutline')), seq_n(rows_of(as_ref(%(ql)s[k], 'ScenarioOutline'))), %(m)d)) and "
+            "implies(not typeof_is(%(ql)s[k], 'ScenarioOutline') and not typeof_is(%(ql)s[k], 'Rule'), "
+            "item_m(%(ql)s[k], %(m)d) == leaf(%(ql)s[k], %(m)d))))" % {"ql": qlist, "m": m})
+    return " and ".join(parts)
+
+
+contract(RS + "SummaryReporterV1.process_run_items_for", props=P,
+         params={"self": "ref:SummaryReporterV1", "parent": "ref:ScenarioContainer"},
+         self_classes=["SummaryReporterV1"], requires=V1_REQ, allow_raises=["KeyError"],
+         assume=dict(PROBE_IS_STATUS, **{
+             "definition-of-sum_items (census of the first n run items)": sum_def("sum_items", "item_m", "parent.run_items", ITEMS),
+             "definition-of-item_m for outlines and scenarios": item_defs("parent.run_items", ITEMS),
+             "seq_n-is-the-length-of-the-run-item-list": "seq_n(parent.run_items) == len(%s)" % ITEMS,
+             "the-run-item-list-is-not-one-of-the-reporter's-listings":
+                 "parent.run_items is not self._failed_scenarios and parent.run_items is not self._errored_scenarios"}),
+         modifies=V1_MOD,
+         loops=[Loop(invariant=dict(census_invariant(lambda m: "sum_items(parent.run_items, _i, %d)" % m),
+                                    **{"same-walk": "_seq is parent.run_items"}), modifies=V1_MOD)],
+         ensures=census_clauses(lambda m: "sum_items(parent.run_items, seq_n(parent.run_items), %d)" % m),
+         doc="every run item is processed exactly once, in order, by the function for its kind")
+
+RULE_ITEMS = "as_list(rule.run_items, 'ref:RunItem')"
+contract(RS + "SummaryReporterV1.process_rule", props=P,
+         params={"self": "ref:SummaryReporterV1", "rule": "ref:Rule"},
+         self_classes=["SummaryReporterV1"], requires=V1_REQ, lookup_raises=True, allow_raises=["KeyError"],
+         assume=dict(PROBE_IS_STATUS, **{
+             "definition-of-item_m for a rule (itself plus its run items)":
+                 " and ".join("item_m(rule, %d) == %s + sum_items(rule.run_items, seq_n(rule.run_items), %d)"
+                              % (m, "(1 if child_status(rule) == probe_status() else 0)" if m == 2 else "0", m)
+                              for m in MEASURES),
+             "the-run-item-list-is-not-one-of-the-reporter's-listings":
+                 "rule.run_items is not self._failed_scenarios and rule.run_items is not self._errored_scenarios"}),
+         modifies=V1_MOD,
+         ensures=census_clauses(lambda m: "item_m(rule, %d)" % m))
+
+# -- feature level ----------------------------------------------------------------------------------------
+contract(RS + "AbstractSummaryReporter.duration", trusted=True, params={"self": "ref:AbstractSummaryReporter"},
+         modifies=["self._duration"], result="any", doc="elapsed time bookkeeping (not part of any count)")
+contract(RS + "AbstractSummaryReporter.duration.setter", trusted=True, params={"self": "ref:AbstractSummaryReporter"},
+         pos_params=["self", "value"], modifies=["self._duration"], doc="elapsed time bookkeeping")
+contract("abs:BasicStatement.duration", trusted=True, params={"self": "ref:BasicStatement"}, pure=True, result="any",
+         doc="duration of an element (sum of its parts)")
+FEAT_ITEMS = "as_list(feature.run_items, 'ref:RunItem')"
+FEAT_ALIAS = "feature.run_items is not self._failed_scenarios and feature.run_items is not self._errored_scenarios"
+FEAT_ENS = dict(census_clauses(lambda m: "sum_items(feature.run_items, seq_n(feature.run_items), %d)" % m), **{
+    "feature-counted-once-under-its-status-and-no-other-row-touched":
+        "forall_val(lambda s: implies(has_key(self.feature_summary, s), dict_value(self.feature_summary, s) == "
+        "old(dict_value(self.feature_summary, s)) + (1 if s == child_status(feature).name else 0)))",
+    "no-feature-rows-added-or-removed":
+        "forall_val(lambda s: has_key(self.feature_summary, s) == old(has_key(self.feature_summary, s)))"})
+contract(RS + "SummaryReporterV1.process_feature", props=P,
+         params={"self": "ref:SummaryReporterV1", "feature": "ref:Feature"},
+         self_classes=["SummaryReporterV1"], requires=V1_REQ, lookup_raises=True, allow_raises=["KeyError"],
+         assume=dict(PROBE_IS_STATUS, **{"the-run-item-list-is-not-one-of-the-reporter's-listings": FEAT_ALIAS}),
+         modifies=V1_MOD + ["dict(self.feature_summary)", "self._duration"], ensures=FEAT_ENS,
+         doc="the feature is counted once under its status; its scenarios, steps and rules by the census of its run items")
+contract(RS + "SummaryReporterV1.on_feature", props=P,
+         params={"self": "ref:SummaryReporterV1", "feature": "ref:Feature"},
+         self_classes=["SummaryReporterV1"], requires=V1_REQ, allow_raises=["KeyError"],
+         modifies=V1_MOD + ["dict(self.feature_summary)", "self._duration"], ensures=FEAT_ENS)
+contract("lib:time.time", trusted=True, pos_params=[], pure=True, result="any", doc="time.time() (A-lib)")
+global_const("time_now", ("contract", "lib:time.time"))
+contract(RS + "AbstractSummaryReporter.testrun_started", inline=True)
+contract(RS + "AbstractSummaryReporter.feature", props=P,
+         params={"self": "ref:AbstractSummaryReporter", "feature": "ref:Feature"},
+         self_classes=["SummaryReporterV1"], requires=V1_REQ, allow_raises=["KeyError"],
+         modifies=V1_MOD + ["dict(self.feature_summary)", "self._duration", "self.testrun_start_time"], ensures=FEAT_ENS,
+         doc="Reporter API entry point called by ModelRunner.run_model once per feature (run or not): the v1 tables "
+             "grow by exactly the census of that feature")
+
+# -- the collector (SummaryReporterV2 / SummaryCollector): one increment per visited element --------------------
+ghost("ninc", "int")            # StatusCounts.increment / HookErrorCounts.increment calls so far
+ghost("inc_obj", "array")       # the counter object incremented by the k-th call
+ghost("inc_key", "array")       # its key (a Status, or the hook-error level name)
+shape("SummaryCounts", features="ref:StatusCounts", rules="ref:StatusCounts", scenarios="ref:StatusCounts",
+      steps="ref:StatusCounts", hook_errors="ref:HookErrorCounts")
+shape("SummaryCollector", summary_counts="ref:SummaryCounts", duration="any", failed_features="seq:ref:Feature",
+      failed_scenarios="seq:ref:Scenario", errored_features="seq:ref:Feature", errored_scenarios="seq:ref:Scenario",
+      pending_features="seq:any", pending_scenarios="seq:any", visitor="any")
+for _cls in ("StatusCounts", "HookErrorCounts"):
+    contract("abs:%s.increment" % _cls, trusted=True, params={"self": "ref:%s" % _cls},
+             pos_params=["self", "status", "delta"] if _cls == "StatusCounts" else ["self", "name", "delta"],
+             defaults={"delta": 1}, modifies=["G_ninc"],
+             ghost_stores=[("inc_obj", "G_ninc", "self"), ("inc_key", "G_ninc", "status" if _cls == "StatusCounts" else "name")],
+             ensures={"one-more-increment": "G_ninc == old(G_ninc) + 1"},
+             doc="Counter arithmetic (dict subclass of the standard library): self[key] += 1 (A-lib)")
+COL_MOD = ["G_ninc", "G_inc_obj", "G_inc_key", "self.duration", "*._cached_status", "*._background_steps"]
+K0 = "old(G_ninc)"
+
+
+def _hook_clause(level):
+    return ("implies(ELEM.hook_failed, G_ninc == %s + 2 and G_inc_obj(%s + 1) is self.summary_counts.hook_errors "
+            "and G_inc_key(%s + 1) == '%s') and implies(not ELEM.hook_failed, G_ninc == %s + 1)" % (K0, K0, K0, level, K0))
+
+
+contract(S + "SummaryCollector.on_scenario", props=P,
+         params={"self": "ref:SummaryCollector", "scenario": "ref:Scenario"}, self_classes=["SummaryCollector"],
+         requires={"two-lists": "self.failed_scenarios is not self.errored_scenarios"},
+         modifies=COL_MOD + ["list(self.failed_scenarios)", "list(self.errored_scenarios)"],
+         ensures={
+             "counted-once-under-its-status":
+                 "G_inc_obj(%s) is self.summary_counts.scenarios and G_inc_key(%s) == child_status(scenario)" % (K0, K0),
+             "hook-error-counted-iff-hook-failed": _hook_clause("on_scenario").replace("ELEM", "scenario"),
              "listed-iff-failed-or-error-class":
-                 "len(self._failed_scenarios) == old(len(self._failed_scenarios)) + (1 if child_status(scenario) == Status.failed else 0) and "
-                 "len(self._errored_scenarios) == old(len(self._errored_scenarios)) + "
-                 "(1 if child_status(scenario) in (Status.error, Status.hook_error, Status.cleanup_error, Status.undefined, Status.pending) else 0)",
+                 "len(self.failed_scenarios) == old(len(self.failed_scenarios)) + (1 if child_status(scenario) == Status.failed else 0) and "
+                 "len(self.errored_scenarios) == old(len(self.errored_scenarios)) + (1 if child_status(scenario) in %s else 0)" % ERRCLASS,
+             "listed-scenario-is-this-one":
+                 "implies(child_status(scenario) == Status.failed, self.failed_scenarios[len(self.failed_scenarios) - 1] is scenario) and "
+                 "implies(child_status(scenario) in %s, self.errored_scenarios[len(self.errored_scenarios) - 1] is scenario)" % ERRCLASS,
+             "earlier-increments-kept": "forall(lambda k: implies(0 <= k < %s, G_inc_obj(k) == old(G_inc_obj(k)) and G_inc_key(k) == old(G_inc_key(k))))" % K0,
          })
+contract(S + "SummaryCollector.on_step", props=P,
+         params={"self": "ref:SummaryCollector", "step": "ref:Step"}, self_classes=["SummaryCollector"],
+         modifies=COL_MOD,
+         ensures={"counted-once-under-its-status":
+                  "G_inc_obj(%s) is self.summary_counts.steps and G_inc_key(%s) == step.status" % (K0, K0),
+                  "hook-error-counted-iff-hook-failed": _hook_clause("on_step").replace("ELEM", "step")})
+contract(S + "SummaryCollector.on_rule", props=P,
+         params={"self": "ref:SummaryCollector", "rule": "ref:Rule"}, self_classes=["SummaryCollector"],
+         modifies=COL_MOD,
+         ensures={"counted-once-under-its-status":
+                  "G_inc_obj(%s) is self.summary_counts.rules and G_inc_key(%s) == child_status(rule)" % (K0, K0),
+                  "hook-error-counted-iff-hook-failed": _hook_clause("on_rule").replace("ELEM", "rule")})
+contract(S + "SummaryCollector.on_feature", props=P,
+         params={"self": "ref:SummaryCollector", "feature": "ref:Feature"}, self_classes=["SummaryCollector"],
+         requires={"two-lists": "self.failed_features is not self.errored_features"},
+         modifies=COL_MOD + ["list(self.failed_features)", "list(self.errored_features)"],
+         ensures={"counted-once-under-its-status":
+                  "G_inc_obj(%s) is self.summary_counts.features and G_inc_key(%s) == child_status(feature)" % (K0, K0),
+                  "hook-error-counted-iff-hook-failed": _hook_clause("on_feature").replace("ELEM", "feature"),
+                  "listed-iff-failed-or-error-class":
+                      "len(self.failed_features) == old(len(self.failed_features)) + (1 if child_status(feature) == Status.failed else 0) and "
+                      "len(self.errored_features) == old(len(self.errored_features)) + (1 if child_status(feature) in %s else 0)" % ERRCLASS})
+
+prop("C14", level="proof", bounded=[],
+     explanation="conservation proved for the default (v1) summary reporter: Reporter.feature(f) makes every count table grow by "
+                 "exactly the census of f for an arbitrary status (scenarios incl. outline rows, steps incl. background steps, "
+                 "rules; the feature itself once), touches no other row, and lists exactly the failed / error-class scenarios; "
+                 "every run item is processed exactly once by the function for its kind (mutually recursive contracts); "
+                 "run_model calls reporter.feature for every feature, run or not. Collector: every visit increments exactly the "
+                 "counter of the element's kind under its status (plus the hook-error counter iff its hook failed). "
+                 "Line formats, Counter arithmetic, the ModelVisitor traversal and the 'all' sums are bounded only",
+     technique="contract-based deductive verification (own VC generator over the real ASTs, z3/cvc5): recursive census "
+               "definitions + loop invariants over the real tree walk; bounded run-time contract stand-in for the text formats",
+     notes=["the census is defined recursively over run_items / rows_of(outline) / all_steps_of(scenario); these model lists are "
+            "assumed not to be the reporter's own listing lists",
+            "a status without a row in a v1 table raises KeyError (visible crash): partial correctness w.r.t. KeyError",
+            "ModelVisitor.visit_* (collector traversal), StatusCounts/Counter arithmetic and format_summary_* are not under contract"])
